@@ -24,11 +24,11 @@ type C19Case struct {
 	Spin string `json:"spin,omitempty"`
 	// raise kind
 	// Once (fn kind): the failing call carries the synchronous qualifier ONCE (one invocation per query)
-	Once      bool   `json:"once,omitempty"`
+	Once bool `json:"once,omitempty"`
 	// ErrVal (fn kind): what the failing invocation returns next to its error (0 nothing, 1 Go int 0, 2 its
 	// argument, 3 a float32); External: the function was registered through RegisterExternalFunction
-	ErrVal   int  `json:"err_val,omitempty"`
-	External bool `json:"external,omitempty"`
+	ErrVal    int    `json:"err_val,omitempty"`
+	External  bool   `json:"external,omitempty"`
 	RaiseSQL  string `json:"raise_sql,omitempty"`  // query containing RAISE / RAISE_WHEN
 	RaiseProb string `json:"raise_prob,omitempty"` // probe query: non-empty result <=> the raise fires
 }
